@@ -4,6 +4,7 @@ package main
 // Everything is a deterministic function of (instance plan, case plan), so a saved plan replays.
 
 import (
+	"fmt"
 	"encoding/binary"
 	"encoding/json"
 	"math"
@@ -310,9 +311,30 @@ func (g *gen) scope(r *rand.Rand, sc pcommon.InstrumentationScope, j int) {
 	sc.SetDroppedAttributesCount(uint32(g.next()))
 }
 
+// bulkAttrs: distinct strings per record (under a configured key and under an unlisted one), so that one long-lived
+// instance sees thousands of different strings - and sees early ones again later.
+func (g *gen) bulkAttrs(m pcommon.Map, n int) {
+	m.PutStr(g.key("listed", 0), fmt.Sprintf("session-%06d", n))
+	m.PutStr(g.key("unlisted", 0), fmt.Sprintf("u%05d", n))
+	l := m.PutEmptySlice(g.key("listed", 1))
+	l.AppendEmpty().SetStr(fmt.Sprintf("item-%d", n))
+	l.AppendEmpty().SetInt(int64(n))
+}
+
 func (g *gen) traces(c *Case) ptrace.Traces {
 	r := g.rand()
 	td := ptrace.NewTraces()
+	if c.Bulk > 0 {
+		ss := td.ResourceSpans().AppendEmpty().ScopeSpans().AppendEmpty()
+		for k := 0; k < c.Bulk; k++ {
+			sp := ss.Spans().AppendEmpty()
+			sp.SetTraceID(g.id16())
+			sp.SetSpanID(g.id8())
+			sp.SetName("op")
+			g.bulkAttrs(sp.Attributes(), c.Base+k)
+		}
+		return td
+	}
 	for i, nr := 0, g.count(r, 1); i < nr; i++ {
 		rs := td.ResourceSpans().AppendEmpty()
 		g.resource(r, rs.Resource(), i)
@@ -368,6 +390,16 @@ func (g *gen) traces(c *Case) ptrace.Traces {
 func (g *gen) logs(c *Case) plog.Logs {
 	r := g.rand()
 	ld := plog.NewLogs()
+	if c.Bulk > 0 {
+		sl := ld.ResourceLogs().AppendEmpty().ScopeLogs().AppendEmpty()
+		for k := 0; k < c.Bulk; k++ {
+			lr := sl.LogRecords().AppendEmpty()
+			lr.SetTimestamp(pcommon.Timestamp(g.next()))
+			lr.Body().SetStr(fmt.Sprintf("body-%d", c.Base+k))
+			g.bulkAttrs(lr.Attributes(), c.Base+k)
+		}
+		return ld
+	}
 	for i, nr := 0, g.count(r, 1); i < nr; i++ {
 		rl := ld.ResourceLogs().AppendEmpty()
 		g.resource(r, rl.Resource(), i)
